@@ -577,7 +577,7 @@ def _adds_every(facts, body, it, dst, src_param, src_path, rc):
             c = it.calls.get(bb)
             if c is None or not any(item_derived(a.val, lp) for a in c.args[1:]):
                 continue
-            for e in call_effects(facts, it, bb):
+            for e in call_effects(facts, it, bb, must_only=True):
                 if e.param == 1 and tuple(e.path) == tuple(dst) and e.kind == 'w' and e.how in KEEP_CALLS:
                     sites.append(bb)
         if sites and lp.must(rc, sites) and lp.always_entered(rc):
